@@ -219,6 +219,10 @@ example : (run Quirks.none init (nestedRetried ++ [.launch 3 2 none 1, .event 3 
   decide
 example : (step Quirks.none (run Quirks.none init nestedRetried).1 (.event 0 0 (.fail (.plain 5) []))).2 = [.drop 0 0] := by
   decide
+/-- an unhandled failure of the innermost branch fails all three attempts of the chain with the same error -/
+example : (step Quirks.none (run Quirks.none init (deepThenOuterFails.take 6)).1 (.event 2 0 (.fail (.plain 9) []))).2 =
+    [.progress 2 0, .failAttempt 2 (.plain 9), .failAttempt 1 (.plain 9), .failAttempt 0 (.plain 9), .endExecution false] := by
+  decide
 
 end FanProto
 
